@@ -81,10 +81,12 @@ PROPS = {
     },
     'C05': {
         'level': 'other',
-        'explanation': 'Decided (Verus, unbounded): for Histogram, SumVec, MultihotCountVec and Sum the declared proof_len/verifier_len/prove_rand_len/joint_rand_len equal the expressions Flp::prove/query build from the gadget parameters (arity + gadget_poly_len(degree, wire_poly_len(calls)) with the real wire_poly_len/gadget_poly_len extracted from flp.rs), without overflow on usable instances. Not decided: completeness, soundness, share-linearity of query, root-of-unity refusal (polynomial identities over NTT code).',
-        'trusted': ['gadget parameters (arity 2*chunk_length, degree 2, calls gadget_calls) are read off gadget() by hand'],
-        'quick': {'verus': [('flp_lens', 'unit')], 'kani': []},
-        'thorough': {},
+        'explanation': 'Decided (Verus, unbounded): for Histogram, SumVec, MultihotCountVec and Sum the declared proof_len/verifier_len/prove_rand_len/joint_rand_len equal the expressions Flp::prove/query build from the gadget parameters (arity + gadget_poly_len(degree, wire_poly_len(calls)) with the real wire_poly_len/gadget_poly_len extracted from flp.rs), without overflow on usable instances. Decided (Kani, the real provided methods Flp::query / Flp::decide instantiated with a harness-defined one-gadget circuit, any query randomness r, field multiplication seen through its contract): query refuses (Err(Query)) whenever r^wire_poly_len(calls) == 1 and never reaches the evaluation of a gadget polynomial at such a point, for gadgets called 1, 2, 3, 4 (quick) and 8 (thorough) times; wrong input/proof/randomness lengths are refused before the guard; decide() refuses a wrong verifier length and returns true exactly when verifier[0] == 0 and every gadget check matches. Not decided: completeness, soundness, share-linearity of query (polynomial identities over NTT code); that r^n == 1 characterises the interpolation nodes is field theory (assumed).',
+        'trusted': ['gadget parameters (arity 2*chunk_length, degree 2, calls gadget_calls) are read off gadget() by hand',
+                    'r^n == 1 <=> r is one of the n interpolation nodes (cyclic group of a prime field)'],
+        'quick': {'verus': [('flp_lens', 'unit')],
+                  'kani': [{'files': KC + ['c05_flp.rs'], 'harnesses': ['flp_query_root_guard_c1', 'flp_query_root_guard_c2', 'flp_query_root_guard_c3', 'flp_query_root_guard_c4', 'flp_query_len_guards', 'flp_decide_guards'], 'timeout': 600}]},
+        'thorough': {'kani': [{'files': KC + ['c05_flp.rs'], 'harnesses': ['flp_query_root_guard_c8'], 'timeout': 900}]},
     },
     'C18': {
         'level': 'other',
@@ -111,9 +113,9 @@ PROPS = {
     },
     'C20': {
         'level': 'other',
-        'explanation': 'Decided (Verus): Prio3 and Prio2 is_agg_param_valid(cur, prev) == prev.is_empty() for every history. Not decided: the Poplar1 rule (level strictly greater than the most recent, every prefix extends one of the most recent) and prefix-list validation: they are computed on bitvec values (out of reach of both engines, DESIGN R3/R4).',
+        'explanation': 'Decided (Verus): Prio3 and Prio2 is_agg_param_valid(cur, prev) == prev.is_empty() for every history. Decided (Kani, real Poplar1::is_agg_param_valid, every u16 level, histories of 0..3 parameters with empty candidate sets - bounded): an empty history admits every parameter; otherwise the parameter is admitted only if its level is strictly greater than that of the MOST RECENT parameter; try_from_prefixes refuses an empty list. Not decided: the prefix-extension clause (every prefix extends one of the most recent candidates) and prefix-list ordering/dedup validation: they compare bitvec values (out of reach of both engines, DESIGN R3/R4).',
         'trusted': [],
-        'quick': {'verus': [('vdaf_guards', 'unit')], 'kani': []},
+        'quick': {'verus': [('vdaf_guards', 'unit')], 'kani': [{'files': KC + ['c20_poplar1.rs']}]},
         'thorough': {},
     },
     'C12': {
